@@ -476,7 +476,13 @@ class Interp:
         yield Outcome('fall', None, st)
 
     def st_Global(self, node, st):
-        raise Unsupported('global statement at %s' % self.cur.loc(node))
+        # module state is opaque to the interpreter; the purity rule (vf/purity.py) judges it
+        s = st.copy()
+        for n in node.names:
+            s.env.pop(n, None)
+        yield Outcome('fall', None, s.note(('global-stmt', tuple(node.names), node.lineno)))
+
+    st_Nonlocal = st_Global
 
     def st_Import(self, node, st):
         yield Outcome('fall', None, st)
@@ -553,13 +559,28 @@ class Interp:
                 yield from self._raise_or(s2, lambda s_: [Outcome('fall', None, s_)])
 
     def st_Delete(self, node, st):
-        s = st
+        states = [st]
         for t in node.targets:
-            for v, s1 in self.ev(_as_load(t.value) if isinstance(t, ast.Subscript) else
-                                 ast.Constant(value=None), s):
-                s = s1.effect(Effect('del', v, (ast.unparse(t),), node.lineno, self.cur.qualname))
-                break
-        yield Outcome('fall', None, s)
+            nxt = []
+            for s in states:
+                if isinstance(t, ast.Subscript):
+                    for o, s1 in self.ev(t.value, s):
+                        if s1.raised:
+                            nxt.append(s1)
+                            continue
+                        for i, s2 in self.ev_index(t.slice, s1):
+                            nxt.append(s2 if s2.raised else s2.effect(
+                                Effect('del', ('item', o, i), (), node.lineno, self.cur.qualname)))
+                elif isinstance(t, ast.Name):
+                    s1 = s.copy()
+                    s1.env.pop(t.id, None)
+                    nxt.append(s1)
+                else:
+                    nxt.append(s.effect(Effect('del', ast.unparse(t), (), node.lineno,
+                                               self.cur.qualname)))
+            states = nxt
+        for s in states:
+            yield from self._raise_or(s, lambda s_: [Outcome('fall', None, s_)])
 
     def st_If(self, node, st):
         for c, s in self.ev_cond(node.test, st):
@@ -1032,11 +1053,60 @@ class Interp:
                     yield DictV(tuple(zip(ks, vs))), s2
 
     def ev_ListComp(self, node, st):
+        # a comprehension over a *literal* iteration space is unrolled exactly; anything else is
+        # an opaque list
+        if isinstance(node, ast.ListComp) and len(node.generators) == 1 \
+                and not node.generators[0].is_async:
+            gen = node.generators[0]
+            for it, s in self.ev(gen.iter, st):
+                if s.raised:
+                    yield None, s
+                    continue
+                items = self.literal_items(it)
+                if items is None or len(items) > 64:
+                    yield Opaque('comp@%d' % node.lineno, (), 'list'), s
+                    continue
+                saved = dict(s.env)
+                for vals, s2 in self._comp_items(node, gen, items, 0, s):
+                    if s2.raised:
+                        yield None, s2
+                        continue
+                    s3 = s2.copy()
+                    s3.env = dict(saved)
+                    yield Tup(tuple(vals), 'list'), s3
+            return
         yield Opaque('comp@%d' % node.lineno, (), 'list'), st
 
-    ev_GeneratorExp = ev_ListComp
-    ev_SetComp = ev_ListComp
-    ev_DictComp = ev_ListComp
+    def _comp_items(self, node, gen, items, idx, st):
+        if idx >= len(items):
+            yield [], st
+            return
+        for s1 in self.assign(gen.target, items[idx], st):
+            conds = [(TRUE, s1)] if not gen.ifs else self.ev_cond(
+                gen.ifs[0] if len(gen.ifs) == 1 else ast.BoolOp(op=ast.And(), values=gen.ifs), s1)
+            for c, s2 in conds:
+                if s2.raised:
+                    yield None, s2
+                    continue
+                for b, s3 in self.branch(c, s2):
+                    if not b:
+                        yield from self._comp_items(node, gen, items, idx + 1, s3)
+                        continue
+                    for v, s4 in self.ev(node.elt, s3):
+                        if s4.raised:
+                            yield None, s4
+                            continue
+                        for rest, s5 in self._comp_items(node, gen, items, idx + 1, s4):
+                            if s5.raised:
+                                yield None, s5
+                            else:
+                                yield [v] + rest, s5
+
+    def ev_GeneratorExp(self, node, st):
+        yield Opaque('comp@%d' % node.lineno, (), 'list'), st
+
+    ev_SetComp = ev_GeneratorExp
+    ev_DictComp = ev_GeneratorExp
 
     def ev_Lambda(self, node, st):
         yield Opaque('lambda@%d' % node.lineno), st
@@ -1285,10 +1355,18 @@ class Interp:
         return Opaque('item', (o, i), ty)
 
     # ---- calls
+    LIST_MUTATORS = ('append', 'pop', 'insert', 'extend', 'clear')
+
     def ev_Call(self, node, st):
         if any(isinstance(a, ast.Starred) for a in node.args) or \
                 any(k.arg is None for k in node.keywords):
             raise Unsupported('star-args call at %s' % self.cur.loc(node))
+        f = node.func
+        if isinstance(f, ast.Attribute) and isinstance(f.value, ast.Name) \
+                and f.attr in self.LIST_MUTATORS and isinstance(st.env.get(f.value.id), Tup) \
+                and st.env[f.value.id].kind == 'list' and not node.keywords:
+            yield from self._list_mutation(node, f.value.id, f.attr, st)
+            return
         for f, s in self.ev(node.func, st):
             if s.raised:
                 yield None, s
@@ -1303,6 +1381,38 @@ class Interp:
                         continue
                     kwargs = {k.arg: v for k, v in zip(node.keywords, kvals)}
                     yield from self.do_call(f, args, kwargs, s3, node)
+
+    def _list_mutation(self, node, name, meth, st):
+        """In-place mutation of a list held in a local variable whose elements are known."""
+        for args, s in self.ev_seq(list(node.args), st):
+            if s.raised:
+                yield None, s
+                continue
+            cur = s.env[name]
+            items = list(cur.items)
+            const_int = lambda a: isinstance(a, Sym) and a.is_const() and \
+                a.const_value().denominator == 1
+            res = NONE
+            if meth == 'append' and len(args) == 1:
+                items.append(args[0])
+            elif meth == 'clear' and not args:
+                items = []
+            elif meth == 'extend' and len(args) == 1 and isinstance(args[0], Tup):
+                items.extend(args[0].items)
+            elif meth == 'pop' and (not args or const_int(args[0])):
+                k = int(args[0].const_value()) if args else -1
+                if not -len(items) <= k < len(items):
+                    yield None, s.raising('IndexError')
+                    continue
+                res = items.pop(k)
+            elif meth == 'insert' and len(args) == 2 and const_int(args[0]):
+                items.insert(int(args[0].const_value()), args[1])
+            else:
+                # unknown shape: forget the contents
+                yield Opaque('m:' + meth, (cur,) + tuple(args)), s.bind(
+                    name, Opaque('havoc:%s@%d' % (name, node.lineno), (), 'list'))
+                continue
+            yield res, s.bind(name, Tup(tuple(items), 'list'))
 
     def do_call(self, f, args, kwargs, st, node):
         if isinstance(f, ExtRef) and f.dotted.startswith('mpmath.'):
